@@ -278,8 +278,28 @@ def i_nocolon(I, args, ins):
     return z3.Not(z3.Contains(s, z3.StringVal(':')))
 
 
+def describe(ctx, v, depth=0):
+    v = ctx.force(v) if not isinstance(v, Lazy) or v.id in ctx.lazy else v
+    if isinstance(v, Iface):
+        if v.dyn in ('*errors.errorString', '*verif.error'):
+            st = ctx.load(v.val)
+            msg = st[0]
+            w = st[1] if len(st) > 1 else None
+            return 'error(%s%s)' % (str(msg)[:120], (' <- ' + describe(ctx, w, depth + 1)) if w is not None else '')
+        if isinstance(v.val, Ptr) and depth < 3:
+            try:
+                return '%s{%s}' % (v.dyn.rsplit('/', 1)[-1], ', '.join(describe(ctx, x, depth + 1) for x in ctx.load(v.val))[:300])
+            except Exception:
+                pass
+        return '%s(%s)' % (v.dyn.rsplit('/', 1)[-1], describe(ctx, v.val, depth + 1) if depth < 3 else '..')
+    if isinstance(v, StructV):
+        return '{%s}' % ', '.join(describe(ctx, x, depth + 1) for x in v)[:300] if depth < 3 else '{..}'
+    return str(v)[:160]
+
+
 def i_note(I, args, ins):
-    I.ctx.event('note', _label(args[0]), args[1])
+    ctx = I.ctx
+    ctx.ghost.setdefault('notes', []).append((_label(args[0]), describe(ctx, args[1])))
     return None
 
 
@@ -394,6 +414,7 @@ def run_path(harness, prefix, opts):
         'unknown': ctx.stats.unknown, 'stubs_hit': ctx.stubs_hit, 'opaque_calls': ctx.opaque_calls,
         'funcs_run': ctx.funcs_run, 'assumes': ctx.assumes, 'wall_s': time.time() - t0,
         'choices': ctx.trace_choices if opts.get('keep_choices') else None,
+        'notes': ctx.ghost.get('notes') if opts.get('keep_choices') else None,
     }
 
 
